@@ -8,7 +8,8 @@ changes.
 * first sub-step: PESUM gains exactly what AUFNASUM gains (the clamped uptake of the layers) plus — only while a
   *sown* crop stands on the field (SAAT > 0, SAAT ≤ day ≤ ERNTE2) — the N fixation of the day;
 * later sub-steps: PESUM, AUFNASUM and the uptake array PE are untouched;
-* a day of any number of sub-steps credits once.
+* a day of any number of sub-steps credits once;
+* the mineral N of every layer of the profile is ≥ 0 after the call (`C07_source_nmove_mineral_n_nonneg`).
 
 And about the translation of `mineral` (same file of the source, same translator):
 
@@ -20,6 +21,7 @@ And about the translation of `mineral` (same file of the source, same translator
   branch, any number of layers (`C07_source_mineral_pools_nonneg`).
 -/
 import HermesProofs.ImpNmoveCredit
+import HermesProofs.ImpNmoveNonneg
 import HermesProofs.ImpMineralPools
 import HermesProofs.ImpMineralDissolved
 import HermesProofs.ImpMineralNonneg
@@ -128,6 +130,12 @@ theorem C07_source_day_credit (s : St ℚ) (h : s.p_subd = 1) (ts : List (St ℚ
   obtain ⟨h1, h2⟩ := laterCalls_counters m (run m s) ts hts
   rw [h1, h2]
   exact C07_source_credit_first_substep m s h
+
+/-- **Mineral N per layer is never negative after the transport step** (source level): for every state — any fluxes, uptake and
+source terms, stable or not — and any number of layers inside the array, every layer of the profile ends ≥ 0. -/
+theorem C07_source_nmove_mineral_n_nonneg (s : St ℚ) (hN : s.g_N.toNat ≤ s.g_C1.length) (j : Int) (h0 : 0 ≤ j) (h1 : j < s.g_N) :
+    0 ≤ rd (run m s).g_C1 j :=
+  run_C1_nonneg m s hN j h0 h1
 
 /-- premises are satisfiable and the statement is not trivial: a legume harvested, automatic sowing pending (SAAT = 0),
 stale fixation 4.44 — nothing is credited; with the crop sown on day 900 it is. -/
